@@ -501,4 +501,22 @@ func init() {
 			{Name: "VxC11", ExtDir: tvDir("C11"), Quick: map[string]int{}, Variants: []map[string]int{{"FN": 0}, {"FN": 1}, {"FN": 2}, {"FN": 3}}, MaxSteps: 500_000},
 		},
 	})
+
+	// ---------------------------------------------------------------- C14
+	c14Files := []string{"c14/c14.go", "gen:astkinds:ast", "gen:goastkinds", "gen:corpus:token/*.go;ast/*.go;scanner/*.go;x/xgoprojs/*.go;x/fakenet/*.go;x/watcher/*.go;format/*.go;format/formatutil/*.go;tpl/token/*.go;tpl/types/*.go;tpl/ast/*.go;env/*.go:60:12000"}
+	register(&checkSpec{
+		ID:   "C14",
+		Rule: "the same bytes go through the real XGo parser and GOROOT's go/parser (both executed from go/ssa): (a) 20 concrete well-typed Go contexts around a window of <= N symbolic bytes, (b) up to 60 .go files of the repository (embedded at check time) as a concrete corpus; when go/parser accepts, the XGo parser must accept and the tree signatures (node kinds, operator/keyword tokens, identifier names, literal values, channel directions, child structure; generated at check time from the struct definitions of both ast packages) must be equal",
+		Assumptions: []string{
+			"the premise 'go/types type-checks' is evaluated natively during replay (go/types on the concrete counter-example): an ill-typed counter-example does not reproduce and is listed as not reproduced",
+			"window bytes are ASCII without # $ ? @ ~ (XGo-only lexemes, see C16); positions and comments are not compared",
+			"bound: windows of <= N bytes in the listed contexts; corpus files of at most 12000 bytes",
+			"open known finding assumed away: declarations with type parameters",
+		},
+		Harnesses: []harnessSpec{
+			{Name: "VxC14Corpus", Pkg: "github.com/goplus/xgo/parser", Files: c14Files, Quick: map[string]int{"N": 0, "P": 0, "KF_BANG": 0, "KF_GENERICS": 0}, MaxSteps: 80_000_000},
+			{Name: "VxC14", Pkg: "github.com/goplus/xgo/parser", Files: c14Files,
+				Quick: map[string]int{"N": 2, "KF_BANG": 0, "KF_GENERICS": 0}, Thorough: map[string]int{"N": 3, "KF_BANG": 0, "KF_GENERICS": 0}, Variants: c15Variants(20), MaxSteps: 8_000_000},
+		},
+	})
 }
